@@ -227,6 +227,9 @@ class Unit:
 
     def render_inst(self, inst):
         fn = self.src.get(inst.qual)
+        want = self.hooks.get('decorators', {}).get(inst.qual)
+        if want is not None and self.src.decorators(inst.qual) != want:
+            raise Unsupported(f'`{inst.qual}`: decorators {self.src.decorators(inst.qual)}, the unit reads it under {want}')
         tr = FnTr(self, inst, fn)
         body = tr.function_body()
         binders = ' '.join([f'({n} : {t})' for n, t in self.ctx_params] +
@@ -390,6 +393,8 @@ class FnTr:
                 n = c.func.value.id
                 v = self.expr(c.args[0])
                 old = self.env[n]
+                if getattr(old, 'alias', False) or n in [p for p, _t in self.inst.params]:
+                    raise Unsupported(f'`{self.inst.qual}`: `{n}.append(…)` on a list that is also reachable under another name')
                 if old.typ != 'List ' + v.typ:
                     raise Unsupported(f'append of {v.typ} to {old.typ}')
                 nm = self.gensym(lname(n))
@@ -547,6 +552,15 @@ class FnTr:
             mine = self.u.hooks['isinstance'](v.typ) if 'isinstance' in self.u.hooks else None
             if mine is None:
                 raise Unsupported(f'`{self.inst.qual}`: isinstance on a value of type {v.typ}')
+            if hasattr(mine, 'no'):
+                # an *abstract* type: `mine` are the classes it is known to be an instance of, `mine.no` the ones it is known
+                # not to be; a test against any other class is not decided by the instance's types
+                if any(n in mine for n in names):
+                    return True
+                und = [n for n in names if n not in mine.no]
+                if und:
+                    raise Unsupported(f'`{self.inst.qual}`: isinstance({v.typ}, {"/".join(und)}) is not decided by the declared types')
+                return False
             return any(n in mine for n in names)
         if isinstance(test, ast.Compare) and len(test.ops) == 1 and isinstance(test.ops[0], (ast.Is, ast.IsNot)) \
                 and isinstance(test.comparators[0], ast.Constant) and test.comparators[0].value is None:
@@ -655,6 +669,8 @@ class FnTr:
                 lets.append(f'let {nm} := {v.text}')
                 self.env[t.id] = Val(nm, v.typ, path=t.id)
                 self.env[t.id].fresh = getattr(v, 'fresh', False)
+                # `ys = xs` / `ys = self.xs`: a second name for the same list object — growing it would change the other too
+                self.env[t.id].alias = isinstance(value, (ast.Name, ast.Attribute)) and v.typ.startswith(('List ', 'Set ', 'DDL '))
                 self.narrow.pop(t.id, None)
             elif isinstance(t, ast.Attribute) and isinstance(t.value, ast.Name) and t.value.id == 'self' \
                     and self.inst.qual.endswith('.__init__'):
@@ -776,10 +792,12 @@ class FnTr:
             nm = aux.gensym(lname(n))
             fixed_b.append((nm, self.env[n].typ))
             aux.env[n] = Val(nm, self.env[n].typ, path=n)
+            aux.env[n].alias = getattr(self.env[n], 'alias', False)
         for n in state:
             nm = aux.gensym(lname(n))
             state_b.append((nm, self.env[n].typ))
             aux.env[n] = Val(nm, self.env[n].typ, path=n)
+            aux.env[n].alias = getattr(self.env[n], 'alias', False)
         fuel = aux.gensym('fuel')
         after_tr = aux.sub()
         after_tr.fresh = aux.fresh
@@ -849,10 +867,12 @@ class FnTr:
             nm = aux.gensym(lname(n))
             fixed_b.append((nm, self.env[n].typ))
             aux.env[n] = Val(nm, self.env[n].typ, path=n)
+            aux.env[n].alias = getattr(self.env[n], 'alias', False)
         for n in state:
             nm = aux.gensym(lname(n))
             state_b.append((nm, self.env[n].typ))
             aux.env[n] = Val(nm, self.env[n].typ, path=n)
+            aux.env[n].alias = getattr(self.env[n], 'alias', False)
         item, items = aux.gensym('item'), aux.gensym('items')
         # [] : the code after the loop
         after_tr = aux.sub()
